@@ -7,7 +7,8 @@
 // definitions and PROVED lemmas here; nothing is assumed in this file.
 
 // ---- get_usefixtures_context_from_text -----------------------------------------------------------------------------------
-pub open spec fn ufx_lit() -> Seq<char> { "usefixtures("@ }
+/// the searched text: the mark call WITH its dot (`pytest.mark.usefixtures(`, `mark.usefixtures(`); since /repo 14e4153
+pub open spec fn ufx_lit() -> Seq<char> { ".usefixtures("@ }
 pub open spec fn ufx_pat() -> PatV { PatV::Str(ufx_lit()) }
 /// how many lines above the cursor line are searched for the pattern (the source's `saturating_sub(10)`)
 pub open spec fn ufx_window() -> int { 10 }
@@ -82,11 +83,11 @@ pub open spec fn ufx_fits(ls: Seq<Seq<char>>, cur: int) -> bool {
 }
 
 pub proof fn lemma_ufx_lit()
-    ensures ufx_lit() =~= seq!['u', 's', 'e', 'f', 'i', 'x', 't', 'u', 'r', 'e', 's', '('], ufx_lit().len() == 12, blen(ufx_lit()) == 12,
-        pat_len(ufx_pat()) == 12,
+    ensures ufx_lit() =~= seq!['.', 'u', 's', 'e', 'f', 'i', 'x', 't', 'u', 'r', 'e', 's', '('], ufx_lit().len() == 13, blen(ufx_lit()) == 13,
+        pat_len(ufx_pat()) == 13,
 {
-    reveal_strlit("usefixtures(");
-    lemma_ascii_blen("usefixtures("@);
+    reveal_strlit(".usefixtures(");
+    lemma_ascii_blen(".usefixtures("@);
 }
 /// the counter moves by at most one per character
 pub proof fn lemma_pd_chars_bound(st: PD, s: Seq<char>, n: int)
